@@ -250,6 +250,21 @@ def check_case(run, case):
                 if a[0] != b[0] or a[0].count(b'\n') != 30:
                     run.violation(f'two random_walk runs differ or did not write 30 lines ({a[0].count(10)} / {b[0].count(10)})', case,
                                   observed=[a[0][:80].decode('utf-8', 'replace'), b[0][:80].decode('utf-8', 'replace')]); return
+                # --load has no meaning in these modes (nothing is saved): with it - whether or not a save file of an ordinary session exists under the
+                # session name - the run produces the same 30 words from the ruleset named on the command line
+                for prep in (('no_save_file', 'save_file_of_another_session') if rng.random() < 0.3 else ()):
+                    s2 = sn + '_ld'
+                    session.drop_session(s2)
+                    if prep == 'save_file_of_another_session':
+                        cli.run_cli('pcfg_guesser.py', ['-r', 'Default', '-s', s2, '-n', '3', '--all_lower'], stdin_mode='eof', timeout=60, max_out=1 << 20) \
+                            if os.path.isdir(os.path.join(repo.scratch(), 'Rules', 'Default')) else \
+                            cli.run_cli('pcfg_guesser.py', ['-r', name, '-s', s2, '-n', '3', '--all_lower'] + ([] if sb else ['--skip_brute']), stdin_mode='eof', timeout=60, max_out=1 << 20)
+                    c_ = cli.run_cli('pcfg_guesser.py', ['-r', name, '-s', s2, '-m', 'random_walk', '-n', '30', '--load'] + fl, stdin_mode='eof', timeout=60, max_out=1 << 20)
+                    run.ev('cli_runs', 2); run.ev('honeyword_runs_with_load')
+                    session.drop_session(s2)
+                    if not c_[3] and c_[0] != a[0]:
+                        run.violation(f'random_walk --limit 30 --load ({prep}): output differs from the same run without --load ({c_[0].count(10)} lines)', case,
+                                      observed={'head': c_[0][:80].decode('utf-8', 'replace'), 'stderr_tail': c_[1][-200:].decode('utf-8', 'replace')}); return
         run.ev('rulesets')
         run.sample({'kind': case['kind'], 'base': [(b[3], b[2]) for b in lang.base][:4], 'flags': case['flags'], 'base_regions': [[float(lo), float(hi)] for lo, hi in base_regs][:4]})
     finally:
